@@ -22,7 +22,7 @@
    evaluated on the rules the router matched, and with an independent replay in proxy order on a rebuilt router. *)
 Require Import RIO.Base RIO.Prefix RIO.Route RIO.Tree RIO.TreeProofs RIO.TreeInst RIO.Matchers RIO.MatcherSpec RIO.PathProofs RIO.RouterSpec RIO.RouterHist RIO.RouterProofs.
 Require Import RIO.Analyses RIO.AnalysesProofs.
-Require Import RIO.Headers RIO.BodyText RIO.ActionModel RIO.Pipeline RIO.PipelineProofs.
+Require Import RIO.Headers RIO.BodyText RIO.ActionModel RIO.Pipeline RIO.PipelineProofs RIO.EndToEnd.
 Close Scope N_scope.
 
 Theorem C19_project_eq_standalone : forall lower eng valid ic_host ic_path always,
@@ -108,6 +108,37 @@ Theorem C19_analysis_order_independent : forall lower table (l1 l2 : list rule) 
   analysis_of_rules lower table l1 skipped ov example_code skeleton = analysis_of_rules lower table l2 skipped ov example_code skeleton.
 Proof. exact analysis_of_rules_permutation. Qed.
 
+(* ---- end to end: router refinement + action order independence + pipeline ----
+   What explain / impact report for an example on the router reached by ANY admissible history (existing router +
+   change-set in particular) is what they report on a router rebuilt from the resulting rule list inserted in any order;
+   and on that router it is the response of the live pipeline for the rules the router matches.  [handler] is the link
+   from a route to the rule it was made from (Route<Rule>::handler()); only that it keeps the id is assumed. *)
+Theorem C19_analysis_incremental_eq_rebuilt : forall lower eng valid ic_host ic_path always,
+  engine_dotstar eng -> engine_prefix_law eng ->
+  forall lower' table (handler : route -> rule), (forall r, ActionModel.r_id (handler r) = Route.rt_id r) ->
+  forall (ops : list rop) (rs : list route) (q : request) skipped ov example_code skeleton,
+  RouterProofs.hist_ok lower [] ops -> Forall (ok_route lower) rs -> Permutation (RouterHist.live ops) rs ->
+  analysis_of_rules lower' table
+    (map handler (router_match lower eng valid ic_host ic_path always q
+                    (rrun lower eng valid ic_host ic_path always ops (router_new lower eng valid ic_host ic_path always))))
+    skipped ov example_code skeleton
+  = analysis_of_rules lower' table
+    (map handler (router_match lower eng valid ic_host ic_path always q (rbuild lower eng valid ic_host ic_path always rs)))
+    skipped ov example_code skeleton.
+Proof. intros. apply analysis_incremental_eq_rebuilt; assumption. Qed.
+
+Theorem C19_analysis_on_history_eq_live : forall lower eng valid ic_host ic_path always lower' table (handler : route -> rule)
+  (ops : list rop) (q : request) skipped ov example_code skeleton,
+  analysis_of_rules lower' table
+    (map handler (router_match lower eng valid ic_host ic_path always q
+                    (rrun lower eng valid ic_host ic_path always ops (router_new lower eng valid ic_host ic_path always))))
+    skipped ov example_code skeleton
+  = live_of_rules lower' table
+    (map handler (router_match lower eng valid ic_host ic_path always q
+                    (rrun lower eng valid ic_host ic_path always ops (router_new lower eng valid ic_host ic_path always))))
+    skipped ov (example_backend example_code) skeleton.
+Proof. intros. apply analysis_of_rules_eq_live. Qed.
+
 (* non-vacuity: an unconditional 301 answers at request time whatever the example's backend code; a rule conditioned
    on 404 answers only when the backend says 404 *)
 Example C19_pipeline_example :
@@ -132,3 +163,5 @@ Print Assumptions C19_analysis_eq_live.
 Print Assumptions C19_request_phase_wins.
 Print Assumptions C19_analysis_status.
 Print Assumptions C19_analysis_order_independent.
+Print Assumptions C19_analysis_incremental_eq_rebuilt.
+Print Assumptions C19_analysis_on_history_eq_live.
